@@ -783,6 +783,19 @@ func c19Sinks(w *W) {
 		"console:short-writer":    func() { log.Stdout = shortWriter{} },
 		"console:closed-file":     func() { log.Stdout = closedFile },
 		"console:read-only-file":  func() { log.Stdout = roFile },
+		// the process's standard output as a real descriptor on which every write fails for good: a full device (ENOSPC) ...
+		"console:/dev/full": func() {
+			if f, err := os.OpenFile("/dev/full", os.O_WRONLY, 0); err == nil {
+				log.Stdout = f
+			}
+		},
+		// ... and a pipe whose reader has gone away (EPIPE)
+		"console:pipe-without-reader": func() {
+			if r, wp, err := os.Pipe(); err == nil {
+				r.Close()
+				log.Stdout = wp
+			}
+		},
 	} {
 		set := wr
 		add(name, func() {
